@@ -34,6 +34,7 @@ def handlerFor : String → Option Handler
   | "c08" => some GB.C08.handle
   | "c09" => some GB.C09.handle
   | "c10" => some GB.C10.handle
+  | "c10race" => some GB.C10.handle
   | "c11" => some GB.C11.handle
   | "c12" => some GB.C12.handle
   | "c12e2e" => some GB.C12.handle
